@@ -4,6 +4,7 @@ import itertools
 import numpy as np
 import pyfvtool as pf
 import pyfvtool.pdesolver as _ps
+from pyfvtool.utilities import SignedTuple
 from .. import scen, ops, symnp
 from .. import symreal as sr
 
@@ -56,6 +57,7 @@ LISTS = {
     'duplicates': ['D', 'D', 'G', 'G'],
     'permuted': ['G', '-D', 'T', 'U'],
     'pair': ['P', '-C'],
+    'neg_pair': ['-T', 'D', '-G'],
     'empty': [],
     'vectors_only': ['G', '-V', '*V'],
     'matrices_only': ['L', '-U', '*C'],
@@ -64,7 +66,7 @@ LISTS_T = dict(LISTS)
 LISTS_T.update({
     'perm2': ['U', 'T', '-D'], 'perm3': ['-D', 'U', 'T'], 'neg_vec': ['-G', 'L'], 'two_pairs': ['T', 'P'], 'pair_first': ['P', 'T', '-D'],
     'scaled2': ['*L', '*G'], 'dupT': ['T', 'T'], 'single_D': ['D'], 'single_G': ['G'], 'single_T': ['T'], 'mixed4': ['V', 'C', '-L', 'T'],
-    'neg_all': ['-D', '-C', '-G'], 'UC': ['U', 'C'], 'DL': ['-D', 'L', 'G', 'V'],
+    'neg_all': ['-D', '-C', '-G'], 'UC': ['U', 'C'], 'DL': ['-D', 'L', 'G', 'V'], 'neg_pair2': ['-P', 'C'], 'pos_signed': ['-T', '-P'],
 })
 
 
@@ -77,7 +79,8 @@ def _mk(spec, atoms, lam):
     if scale:
         t = t * lam
     if neg:
-        t = -t
+        # a (matrix, vector) pair is negated through the library's own helper (a plain tuple has no unary minus)
+        t = -SignedTuple(t) if isinstance(t, tuple) else -t
     return t, (s, (-1 if neg else 1), scale)
 
 
